@@ -86,8 +86,13 @@ def run(tier):
         return classify_delta(f, f[1][3:])
     ck.witness_runner = witness
     cases = inputs(rng, tier)
+    # modules of more than 2^16 parse nodes and of more than 2^16 / 2 tokens (node and token ids are stored in three
+    # bytes; the third one only matters from 65536 on): many small functions, every list short
+    for nb, nf in enumerate((1200, 1500) if tier == "quick" else (1200, 1500, 2200)):
+        big = "".join("fn f%d(a: i32, b: i32) -> i32\n{\n\tvar x: i32 = a + b * %d;\n\tif x == %d\n\t{\n\t\tx = x - 1;\n\t}\n\treturn: x\n}\n" % (i, i, i) for i in range(nf))
+        cases.append(("big%d" % nb, big, "big-module"))
     impl = C.run_harness("syntax-tree", [(c[0], c[1]) for c in cases], ck.work + "/tree", timeout=3000)
-    items = [("refparse", c[0], impl[c[0]][0]) for c in cases if c[0] in impl and len(impl[c[0]]) >= 6 and not impl[c[0]][0].startswith("lexerr")]
+    items = [("refparse", c[0], impl[c[0]][0]) for c in cases if c[0] in impl and len(impl[c[0]]) >= 6 and not impl[c[0]][0].startswith("lexerr") and c[2] != "big-module"]
     model = C.run_model(items, ck.work + "/tree", timeout=3000)
     stats = collections.Counter(); bad = 0; distinct = set()
     for cid, src, kind in cases:
@@ -98,6 +103,15 @@ def run(tier):
             if f[0].startswith("panic"): ck.violation(C.failure_key(f[0]), "first-generation front end failed: " + f[0][:160], src)
             continue
         if f[0].startswith("lexerr"): stats["lexical-error"] += 1; continue
+        if kind == "big-module":
+            # (too large for the extracted reference parser's stack: the two real parsers are compared directly)
+            if not f[1].startswith("ok "):
+                bad += 1; ck.violation("valid-rejected:big-module", "the first generation rejects a module of many small functions: " + f[1][:200], src[:2000]); continue
+            k = classify_delta(f, f[1][3:])
+            stats["big:" + (k or "delta-equal")] += 1
+            if k is not None:
+                ck.violation("delta:" + k + ":big-module", "second-generation parser on a valid module of %d bytes (more than 2^16 parse nodes): %s" % (len(src), k), "source: %d functions like\n%s\nsecond generation: %s" % (src.count("fn f"), src[:300], f[5][:600]))
+            continue
         m = model.get(cid, "MODEL-MISSING")
         alpha_ok = f[1].startswith("ok ")
         ref_ok = "parsed=true" in m
